@@ -340,7 +340,10 @@ def rule_frobenius(fx, rep):
                     if r_ is None:
                         return False
                     cur = fr._project(fr.store.get(r_.root, TOP), r_.proj)
-                    okp = isinstance(pw, Int) and pw.v == k
+                    # the power handed to the component's own Frobenius: the caller's power or one that agrees with it
+                    # modulo the period of the component's field (2 for Fq2, 6 for Fq6)
+                    sub_period = 6 if (c.get('self_ty') or '').endswith('Fq6') else (2 if (c.get('self_ty') or '').endswith('Fq2') else None)
+                    okp = isinstance(pw, Int) and (pw.v == k or (sub_period is not None and (pw.v - k) % sub_period == 0))
                     new = leafmap(cur, lambda a_: ('frob', a_, k if okp else ('power', repr(pw))))
                     fr.store[r_.root] = fr._update(fr.store.get(r_.root), list(r_.proj), new) if r_.proj else new
                     return True
@@ -542,7 +545,7 @@ def rule_misc(fx, rep):
                 if isinstance(ret, exp.Opt) and ret.tag == 'none' and (zt.get('self') is True or all(zt.get(i) is True for i in range(ncomp_))):
                     continue
                 ok = False
-                why = 'a path returns %r under %r: failure is not tied to the base-field inversion' % (ret, pth.labels)
+                why = 'a path returns %s under %r: failure is not tied to the base-field inversion' % (('Option(tag=%r, label=%r)' % (ret.tag, ret.label)) if isinstance(ret, exp.Opt) else repr(ret), pth.labels)
         rep.check(ok, 'GUARD', '%s::inverse' % s, 'None exactly when the inversion of the norm-like element in the subfield is None', why, fx.fn(path)['span'], construct=path)
 
 
